@@ -14,7 +14,7 @@ RULE = (
     "GeomMultiUnification; non-trivial = distinct generated meshes"
 )
 ASSUMPTIONS = ["finite alphabets for the real parameters; num_x<=6, num_y<=11, <=3 sections", "NumPy trusted"]
-BOUND = {"quick": "num_x<=4, num_y<=7", "thorough": "num_x<=6, num_y<=11"}
+BOUND = {"quick": "num_x<=4, num_y<=7 exhaustively + production sizes 11x51, 7x101, 2x201, 9x21", "thorough": "num_x<=6, num_y<=11"}
 TOL = 1e-12
 
 
@@ -28,8 +28,11 @@ def states(tier, seed):
         if wt != "rect" and (span != spans[0] or ch != chords[0]):
             continue  # span and root_chord are ignored for the CRM
         st.append(dict(part="gen", nx=nx, ny=ny, span=span, chord=ch, scos=sc, ccos=cc, wt=wt, off=off))
+    # production-size meshes (the generators' index arithmetic, CRM interpolation and cosine blending beyond num_y = 11)
+    for (nx, ny), (sc, cc), wt, off in itertools.product([(11, 51), (7, 101), (2, 201), (9, 21)], [(0.0, 0.0), (0.3, 0.5), (1.0, 1.0)], ["rect", "CRM", "CRM:jig", "CRM:alpha_2.75"], [None, [3.0, 0.0, -1.0]]):
+        st.append(dict(part="gen", nx=nx, ny=ny, span=spans[1], chord=chords[0], scos=sc, ccos=cc, wt=wt, off=off))
     menus = dict(taper=[1.0, 0.6], sweep=[0.0, 0.3], span=[1.0, 2.5])
-    for nsec in (1, 2, 3):
+    for nsec in (1, 2, 3, 4):  # four sections: the first count with two middle sections on one side of the root
         for nys_ in itertools.product([2, 3], repeat=nsec):
             roots = ["sym"] + list(range(nsec))
             for root in roots:
